@@ -28,9 +28,10 @@ func init() {
 			}
 			return 50000
 		}}},
-		Run: run,
+		Run:   run,
+		Setup: func(c *core.Ctx) { c.State = &aliasState{} },
 		Floors: func(t string) map[string]int64 {
-			return map[string]int64{"neg.nonfinite_rejected": 100, "neg.unsupported_rejected": 100, "empty_later_member": 100, "coord.neg_zero": 100, "coord.subnormal": 100,
+			return map[string]int64{"alias.checked": 1000, "neg.nonfinite_rejected": 100, "neg.unsupported_rejected": 100, "empty_later_member": 100, "coord.neg_zero": 100, "coord.subnormal": 100,
 				"type.Point": 100, "type.MultiPoint": 100, "type.LineString": 100, "type.MultiLineString": 100, "type.Polygon": 100, "type.MultiPolygon": 100}
 		},
 	})
@@ -138,6 +139,14 @@ func run(c *core.Ctx, idx int) {
 	if err != nil {
 		c.Violate("encode-error:"+name, fmt.Sprintf("geojson.Encode(%s) error: %v", name, err), detail)
 		return
+	}
+	// the text returned for an earlier geometry must not change when another one is encoded
+	if st, ok := c.State.(*aliasState); ok {
+		if st.prev != nil && !bytes.Equal(st.prev, st.prevCopy) {
+			c.Violate("encode-output-mutated", fmt.Sprintf("the bytes returned by an earlier geojson.Encode call changed after a later call: %q became %q", core.Trunc(string(st.prevCopy), 120), core.Trunc(string(st.prev), 120)), map[string]interface{}{"earlier_text": string(st.prevCopy), "now": string(st.prev)})
+		}
+		st.prev, st.prevCopy = txt, append([]byte(nil), txt...)
+		c.Count("alias.checked")
 	}
 	detail["text"] = core.Trunc(string(txt), 2000)
 	if c.WantSample() && g.Len() > 1 {
@@ -325,3 +334,6 @@ func poison(g geom.Geom, k int, x bool, v float64) geom.Geom {
 	}
 	return g
 }
+
+// aliasState remembers the previous Encode output of this worker and a private copy of it.
+type aliasState struct{ prev, prevCopy []byte }
